@@ -829,6 +829,12 @@ func (h *verifWHist) stepTick(height int32, errAt map[string]int) {
 	for _, u := range got {
 		gotSet[u] = true
 	}
+	for _, u := range got {
+		if e := h.events[u]; e != nil && h.pend[u] && h.gtFinal(e, height, lo, hi) != 1 {
+			// forwarded although not (yet) final by the property's definition: C08 has flagged it above; it is no longer pending
+			delete(h.pend, u)
+		}
+	}
 	for u := range h.pend {
 		e := h.events[u]
 		switch h.gtFinal(e, height, lo, hi) {
